@@ -18,6 +18,8 @@ pub enum Beh {
     BlackHole,
     /// does not answer at first, accepts after 300 ms: an attempt succeeds on its SYN retransmission (~1 s) if its timeout allows
     LateAccept,
+    /// an address the machine has no route to (a multicast address): the attempt fails at once with "network unreachable"
+    Unreachable,
 }
 
 #[derive(Debug, Clone, Serialize, Deserialize, PartialEq, Eq, Hash)]
@@ -46,6 +48,7 @@ enum Live {
     R(Refuser),
     B(BlackHole),
     L(LateAcceptor),
+    U(SocketAddr),
 }
 
 impl Live {
@@ -55,6 +58,7 @@ impl Live {
             Live::R(r) => r.addr,
             Live::B(b) => b.addr,
             Live::L(l) => l.addr,
+            Live::U(a) => *a,
         }
     }
 }
@@ -123,7 +127,7 @@ fn simulate(case: &Case) -> Sim {
             } else {
                 match case.addrs[i].1 {
                     Beh::Accept => (start, true),
-                    Beh::Refuse => (start, false),
+                    Beh::Refuse | Beh::Unreachable => (start, false),
                     Beh::BlackHole => (start + deadline.map(|d| c.min(d - start)).unwrap_or(c), false),
                     Beh::LateAccept => {
                         // the peer starts accepting 300 ms after the request was started
@@ -208,6 +212,7 @@ fn run_once(case: &Case) -> Result<Measured, String> {
             Beh::Refuse => Live::R(refuser(*v6, last).map_err(|e| format!("refuser: {e}"))?),
             Beh::BlackHole => Live::B(black_hole(*v6, last).map_err(|e| format!("black hole: {e}"))?),
             Beh::LateAccept => Live::L(late_acceptor(*v6, last, i.to_string(), Duration::from_millis(300)).map_err(|e| format!("late acceptor: {e}"))?),
+            Beh::Unreachable => Live::U(if *v6 || is_mapped { SocketAddr::from((std::net::Ipv6Addr::new(0xff02, 0, 0, 0, 0, 0, 0, last as u16), 9)) } else { SocketAddr::from(([224, 0, 0, last], 9)) }),
         };
         mapped_entry.push(is_mapped);
         live.push(l);
@@ -366,6 +371,10 @@ addresses per family. non-trivial = >= 2 addresses with >= 2 different behaviour
                 }
             }
         }
+        // addresses without a route: every attempt fails at once, and the error says so
+        all.push(Case { addrs: vec![(false, Beh::Unreachable), (true, Beh::Unreachable)], connect_ms: 600, deadline: 0, literal: false, mapped: false });
+        all.push(Case { addrs: vec![(true, Beh::Unreachable), (true, Beh::Unreachable), (false, Beh::Unreachable)], connect_ms: 600, deadline: 3, literal: false, mapped: false });
+        all.push(Case { addrs: vec![(false, Beh::Unreachable), (false, Beh::Accept)], connect_ms: 600, deadline: 0, literal: false, mapped: false });
         // a name that resolves to no address at all: an error, like any other name that cannot be reached
         all.push(Case { addrs: vec![], connect_ms: 600, deadline: 0, literal: false, mapped: false });
         all.push(Case { addrs: vec![], connect_ms: 600, deadline: 3, literal: false, mapped: false });
@@ -378,7 +387,7 @@ addresses per family. non-trivial = >= 2 addresses with >= 2 different behaviour
         Some(Box::new(
             all.into_iter()
                 .enumerate()
-                .filter(move |(i, c)| i % stride == 0 || c.literal || c.mapped || c.addrs.is_empty() || c.connect_ms < 200 || c.connect_ms == u16::MAX || (c.deadline == 2 && c.addrs.len() == 2 && c.addrs[0].1 == Beh::Refuse))
+                .filter(move |(i, c)| i % stride == 0 || c.literal || c.mapped || c.addrs.is_empty() || c.addrs.iter().any(|a| a.1 == Beh::Unreachable) || c.connect_ms < 200 || c.connect_ms == u16::MAX || (c.deadline == 2 && c.addrs.len() == 2 && c.addrs[0].1 == Beh::Refuse))
                 .map(|(_, c)| c)
                 .enumerate()
                 .filter(move |(i, _)| i % nworkers == worker)
@@ -387,7 +396,7 @@ addresses per family. non-trivial = >= 2 addresses with >= 2 different behaviour
     }
 
     fn strategy(_tier: Tier) -> BoxedStrategy<Case> {
-        let beh = prop_oneof![3 => Just(Beh::Accept), 3 => Just(Beh::Refuse), 3 => Just(Beh::BlackHole), 2 => Just(Beh::LateAccept)];
+        let beh = prop_oneof![3 => Just(Beh::Accept), 3 => Just(Beh::Refuse), 3 => Just(Beh::BlackHole), 2 => Just(Beh::LateAccept), 1 => Just(Beh::Unreachable)];
         (
             proptest::collection::vec((any::<bool>(), beh), 2..7),
             prop_oneof![2 => Just(100u16), 2 => Just(600u16), 2 => Just(900u16), 3 => Just(1800u16)],
@@ -478,6 +487,12 @@ addresses per family. non-trivial = >= 2 addresses with >= 2 different behaviour
                 (Ok(_), true) | (Err(_), false) => {}
                 (Err(e), true) => return Outcome::fail("C17:reachable-address-not-found", format!("an accepting address should have been reached: {e}; {describe}")),
                 (Ok(b), false) => return Outcome::fail("C17:unexpected-success", format!("no attempt can succeed, yet a response arrived ({b}); {describe}")),
+            }
+        }
+        // when every attempt fails, the error is one of theirs (not one made up for the occasion)
+        if let Err(e) = &m.result {
+            if !case.addrs.is_empty() && e.contains("no DNS entries") {
+                return Outcome::fail("C17:error-not-from-an-attempt", format!("{} address(es) were tried and failed, the error says that there were none: {e}; {describe}", case.addrs.len()));
             }
         }
         // R2: the winner accepts; the only acceptor when there is exactly one
